@@ -17,6 +17,52 @@ CHECKS = {
         "Trusted: the reference tokenizer as a transcription of the C09 statement; unicode.IsSpace; Go's big.Rat.",
         "DESIGN.md §2 C09",
     ),
+    "C07": (
+        "bounded-exhaustive operator sequences + rapid grammar-directed generation, differential against a reference parser / the generator's own tree",
+        "All token sequences operand (op operand){1..3} (thorough ..4) over the sixteen binary operators and all sign patterns are parsed and "
+        "compared with a reference precedence parser written from the property statement; rapid-generated deep expressions and whole programs "
+        "(every operator, every optional part, lets, empty statements, nested joins) are printed in random layouts and keyword synonyms and must "
+        "parse to the generator's tree (canonical form over exported fields, positions ignored). Complete for the short sequences, sampled for the rest.",
+        "Trusted: reference expression parser and printer of harness/gen; canonical forms in harness/gen/canon.go and harness/astx/canon.go.",
+        "DESIGN.md §2 C07",
+    ),
+    "C08": (
+        "bounded-exhaustive token soups + rapid mutation of grammar programs + native fuzzing, round-trip oracle (re-print tree vs token stream)",
+        "Every short token sequence over small alphabets in 8+13 contexts, tens of thousands of token/byte-level corruptions of generated programs and "
+        "(thorough) a coverage-guided fuzz campaign are parsed; whenever Parse succeeds the tree is re-printed through exported fields and must give "
+        "back Scan's token sequence up to the three absences the property allows. Complete for the stated bounds, sampled beyond.",
+        "Trusted: the re-printer harness/astx/reprint.go; parser.Scan as the token stream (checked separately by C09).",
+        "DESIGN.md §2 C08",
+    ),
+    "C10": (
+        "rapid grammar-directed generation in random layouts + mutation + bounded-exhaustive token soups + native fuzzing, span laws as validity predicates",
+        "Every recorded span of every successfully parsed input must re-scan to the lexeme it claims, lie on token boundaries, tile the token stream "
+        "exactly once together with the others, and every Span() must equal the reflective union of what lies below; failed parses must only report "
+        "in-range spans and line:column prefixes that exist in the source. Sampled (programs, mutants, fuzz) plus complete short soups.",
+        "Trusted: reflection over exported fields; the span-field meaning table in c10_test.go; own line/column function with tab stops of 8.",
+        "DESIGN.md §2 C10",
+    ),
+    "C11": (
+        "rapid grammar-directed generation + bounded-exhaustive token soups, reflective reference model of the node graph",
+        "parser.Walk is compared with the node graph enumerated by reflection: exactly-once visits of all identifiers and expressions, no nil, "
+        "parents first, exact pruning semantics for rapid-drawn prune sets, for whole statements and for every expression subtree.",
+        "Trusted: reflection over exported fields defines the node set.",
+        "DESIGN.md §2 C11",
+    ),
+    "C12": (
+        "rapid generation of hostile inputs + bounded-exhaustive token soups + native fuzzing, executed in a watchdog-supervised worker process",
+        "Random bytes, token soups, grammar programs and their corruptions, nesting and error-cascade templates scaled to 4 KiB, with arbitrary parameter "
+        "maps, are run through Scan, SplitStatements, Parse, Walk and Compile in a subprocess; panic, worker death or 60 CPU-seconds on one case is a violation.",
+        "Trusted: /proc CPU accounting; the budget (slowest legitimate case measured ~8 s wall for six calls). A finite path slower than the budget would be misreported, a hang-free but slow path just under it is missed.",
+        "DESIGN.md §2 C12",
+    ),
+    "C15": (
+        "bounded-exhaustive enumeration + rapid random concatenations, algebraic laws (join/split round trip, piece-vs-context token equality)",
+        "All strings of length <= 4 (thorough 5) over the 27-symbol alphabet and random concatenations of statement fragments: pieces join back to the "
+        "source, cut exactly at semicolon tokens, re-scan to their context tokens, and parse to the statement they were in context.",
+        "Trusted: reflective tree comparison with span shift.",
+        "DESIGN.md §2 C15",
+    ),
 }
 
 NOT_APPLICABLE = [
